@@ -15,6 +15,7 @@ Definition t_bytes := TSlice (TScalar SByte).
 Definition leaf : ty :=
   TNamed "Leaf" (TStruct [("A", t_int32); ("S", t_string); ("B", t_bytes); ("F", TScalar SF64)]).
 Definition plain : ty := TNamed "Pt" (TStruct [("X", TScalar SF64); ("N", t_int32); ("Ok", TScalar SBool)]).
+Definition window : ty := TNamed "Window" (TStruct [("Samples", TSlice t_int32); ("Width", TScalar (SInt KInt))]).
 Definition kind : ty := TNamed "Kind" t_int32.            (* a named scalar *)
 Definition label : ty := TNamed "Label" t_string.         (* a named string scalar *)
 
@@ -134,7 +135,9 @@ Definition multi : list ty :=
             ("NP", TNamed "NLeafPtrs" (TSlice (TPtr leaf))); ("NM", TNamed "NFlags" (TMap t_string t_int32));
             ("NML", TNamed "NLeafMap" (TMap t_string (TPtr leaf))); ("PNS", TPtr (TNamed "NFloats" (TSlice (TScalar SF64))))];
    (* slices of PLAIN structs (no string, bytes or collection inside) *)
-   TStruct [("Pts", TSlice plain); ("PtsPtr", TPtr (TSlice plain)); ("One", plain); ("PM", TMap t_string plain); ("PP", TSlice (TPtr plain))]].
+   TStruct [("Pts", TSlice plain); ("PtsPtr", TPtr (TSlice plain)); ("One", plain); ("PM", TMap t_string plain); ("PP", TSlice (TPtr plain))];
+   (* nested structs without string/bytes whose LAST field has no length (flag propagation in the parsers) *)
+   TStruct [("Id", TScalar (SInt KUint64)); ("Win", window); ("WP", TPtr window); ("G", TNamed "Grid" (TStruct [("Cells", TMap t_int32 t_int32); ("W", t_int32)]))]].
 
 Definition rep_shapes : list ty :=
   dedup_ty (shapes1 rep_skinds ++ shapes2 [SString; SInt KInt32] [SInt KInt32; SString]).
